@@ -53,6 +53,22 @@ func otherCase(c byte) (byte, bool) {
 	return 0, false
 }
 
+// caselessRegex spells an ASCII case-insensitive literal as explicit classes.
+// (Go's regexp mis-handles the (?i:) flag under alternation: `(?i:a)b|A` matches
+// "a" in go1.23 - found by the thorough tier as an oracle disagreement.)
+func caselessRegex(s string) string {
+	var b strings.Builder
+	for i := 0; i < len(s); i++ {
+		c := s[i]
+		if oc, ok := otherCase(c); ok {
+			b.WriteString("[" + string([]byte{c, oc}) + "]")
+		} else {
+			b.WriteString(regexp.QuoteMeta(string([]byte{c})))
+		}
+	}
+	return b.String()
+}
+
 // Nullable reports whether n can match the empty string (conservatively true for
 // references and calls).
 func Nullable(n *Node, globals map[string]Global) bool {
@@ -109,11 +125,10 @@ func ToGoRegex(n *Node, globals map[string]Global) (string, bool) {
 			}
 			return "[^" + setEscape(n.S[0]) + "]", true
 		}
-		q := regexp.QuoteMeta(n.S)
 		if n.Caseless {
-			return "(?i:" + q + ")", true
+			return "(?:" + caselessRegex(n.S) + ")", true
 		}
-		return "(?:" + q + ")", true
+		return "(?:" + regexp.QuoteMeta(n.S) + ")", true
 	case KClass:
 		if n.Class == "any" {
 			if n.Not {
@@ -177,7 +192,7 @@ func ToGoRegex(n *Node, globals map[string]Global) (string, bool) {
 				}
 				q := regexp.QuoteMeta(it.S)
 				if it.Caseless {
-					q = "(?i:" + q + ")"
+					q = caselessRegex(it.S)
 				}
 				alts = append(alts, q)
 			case 1:
